@@ -19,7 +19,7 @@ def check_lock_unlock_delta(ctx):
             # every registration of a lock passes the comparison of the requested amount with the currently locked maximum, and on the
             # `amount > max` edge the shortfall (amount - max) is taken from the liquid balance before the lock is counted
             reg = call_blocks(b, r"indexmap::map::IndexMap(<[^>]*>)?::entry$|IndexMap(<[^>]*>)?::insert$")
-            short = bp.rsplit("::", 1)[1]
+            short = bp.rsplit("::", 1)[-1]
             cmpg = []
             for bb, tru, fal, si in b.call_bool_guards(r"PartialOrd(<[^>]*>)?(>)?::(gt|lt|ge|le)$"):
                 c = [a for a in si["atoms"] if a.kind == "call" and re.search(r"::(gt|lt|ge|le)$", a.what)]
@@ -28,7 +28,7 @@ def check_lock_unlock_delta(ctx):
                     continue
                 o0, o1 = origin_names(b, t["args"][0]), origin_names(b, t["args"][1])
                 is_max = lambda o: any(x.endswith("LockedFungibleResource::amount") for x in o)
-                op = c[0].what.rsplit("::", 1)[1]
+                op = c[0].what.rsplit("::", 1)[-1]
                 # `amount > max` / `max < amount` (or the non-strict forms): the edge on which the request exceeds the locked maximum
                 if o0 == {"param:1"} and is_max(o1) and op in ("gt", "ge"):
                     cmpg.append((bb, tru, fal))
@@ -118,7 +118,7 @@ def run(ctx):
             for bb, ed, ow, si in gs:
                 ex = arm_regions(b, bb, ed)
                 for var, idents in table.items():
-                    cs = {c.rsplit("::", 1)[1] for c in consts_in_blocks(b, ex.get(var, ()))}
+                    cs = {c.rsplit("::", 1)[-1] for c in consts_in_blocks(b, ex.get(var, ()))}
                     want = idents[col]
                     other = {i for v2, ids in table.items() for i in ids} - {want}
                     ctx.ob(f"{ty.split('::')[-1]}::{fn}|{var}-ident", want in cs and not (cs & other),
